@@ -5,6 +5,7 @@ import (
 	"github.com/brutella/hc/crypto"
 	"github.com/brutella/hc/log"
 	"net"
+	"sync"
 	"time"
 
 	"encoding/binary"
@@ -22,6 +23,10 @@ import (
 type Connection struct {
 	connection net.Conn
 	context    Context
+
+	// Writes come from different goroutines (responses, notifications, keep alive).
+	// The frames have to reach the socket in the order they were encrypted.
+	writeMutex sync.Mutex
 
 	// Received bytes which are not decrypted yet (incomplete frame or following frames)
 	encrypted []byte
@@ -120,6 +125,9 @@ func (con *Connection) nextFrame() []byte {
 // The written bytes are encrypted when possible.
 func (con *Connection) Write(b []byte) (n int, err error) {
 	verifYield("write", con, b)
+	con.writeMutex.Lock()
+	defer con.writeMutex.Unlock()
+
 	if con.getEncrypter() != nil {
 		n, err = con.EncryptedWrite(b)
 	} else {
